@@ -24,8 +24,12 @@ def check(ctx):
     ctx.rule('C11.O3', 'CounterGuard is balanced; queueEmptyCounter has no other writer')
     ctx.rule('C11.O4', 'wait predicate false with notification enabled implies emptyQueue()')
     ctx.rule('C11.O5', 'both guard counters start at zero in every queue constructor')
+    ctx.rule('C11.O6', 'state derived from the list that the emptiness tests read is refreshed in every critical section that changes the list')
+    from .qcommon import check_derived_emptiness
     for tu in ctx.tus:
         info = TUInfo(tu)
+        for q in QUEUES:
+            check_derived_emptiness(ctx, tu, info, q, 'C11.O6')
         for q in QUEUES:
             check_queue(ctx, tu, info, q)
         check_guard(ctx, tu)
@@ -35,6 +39,7 @@ def check(ctx):
     ctx.require_min('C11.O3', 2)
     ctx.require_min('C11.O4', 2)
     ctx.require_min('C11.O5', 6)
+    ctx.require_min('C11.O6', 2)
 
 
 def check_queue(ctx, tu, info, q):
@@ -201,6 +206,8 @@ def check_guard_span(ctx, tu, info, q, rule, only_with_putback=False):
 def check_guard(ctx, tu):
     ctors = tu.fns_named('CounterGuard::CounterGuard')
     dtors = tu.fns_named('CounterGuard::~CounterGuard')
+    # (a class of another name that has the same shape - a local RAII struct, say - is recognised by facts.TU.counter_guard_classes, which
+    # demands exactly these clauses of it; CounterGuard itself is judged here so that breaking it is a violation, not a lost guard)
     for f in ctors + dtors:
         ws = [w for w in writes(f) if w['how'] in ('++', '--', 'assign', '+=', '-=')]
         want = '++' if f.kind == 'ctor' else '--'
